@@ -10,7 +10,7 @@ RUNS = {"ADCL", "SBCL", "DADL", "DSBL", "DSLL", "DSRL"}
 def family(case, mn, py_r, py_w, den_r, den_w):
     key = cpu.case_key(case)
     touched = set(py_r) | set(py_w)
-    if mn == "EXL":
+    if mn == "EXL" and case[2].get("I", 0) >= 2:
         return "EXL_touches_one_cell_pair_instead_of_I"
     if mn in RUNS and any(a < cpu.IMEM for a in touched):
         return "counted_internal_memory_run_leaves_internal_memory"
